@@ -196,3 +196,48 @@ def nth(t, i, depth: int = 0):
 def elt_link(s, i):
     """Ground instance of the definition, for a sequence access made by the program."""
     return ELT(s, i) == s[i]
+
+
+# membership in a sequence as an E-matchable predicate:  mem(s, k)  <=>  k occurs in s
+mem = z3.Function("mem", SEQV, Val, BOOL)
+memidx = z3.Function("memidx", SEQV, Val, INT)  # a position where k occurs, if it does
+
+
+def mem_definition():
+    s_, k_, p_ = z3.Const("s!mem", SEQV), z3.Const("k!mem", Val), z3.Int("p!mem")
+    return [
+        z3.ForAll(
+            [s_, k_],
+            z3.Implies(
+                mem(s_, k_),
+                z3.And(0 <= memidx(s_, k_), memidx(s_, k_) < z3.Length(s_), ELT(s_, memidx(s_, k_)) == k_),
+            ),
+            patterns=[mem(s_, k_)],
+        ),
+        z3.ForAll(
+            [s_, p_],
+            z3.Implies(z3.And(0 <= p_, p_ < z3.Length(s_)), mem(s_, ELT(s_, p_))),
+            patterns=[ELT(s_, p_)],
+        ),
+    ]
+
+
+def sel(arr, k, depth: int = 0):
+    """arr[k] with lambdas applied at construction time (dict unions / set unions are
+    lambda terms): the solver then sees the If-term instead of having to beta-reduce
+    inside the array theory, and quantifier patterns over the underlying maps match."""
+    if depth < 8 and z3.is_quantifier(arr) and arr.is_lambda() and arr.num_vars() == 1:
+        body = z3.substitute_vars(arr.body(), k)
+        return _beta(body, depth + 1)
+    return z3.Select(arr, k)
+
+
+def _beta(t, depth: int):
+    if depth > 8 or not z3.is_app(t):
+        return t
+    if t.decl().kind() == z3.Z3_OP_SELECT and z3.is_quantifier(t.arg(0)) and t.arg(0).is_lambda():
+        return sel(t.arg(0), t.arg(1), depth)
+    if t.decl().kind() in (z3.Z3_OP_ITE, z3.Z3_OP_OR, z3.Z3_OP_AND, z3.Z3_OP_NOT):
+        ch = [_beta(c, depth + 1) for c in t.children()]
+        return t.decl()(*ch)
+    return t
